@@ -4,9 +4,11 @@ use crate::engine::{Runtime, Stage, Tier};
 pub mod common;
 pub mod c01;
 pub mod c02;
+pub mod c06;
 pub mod c07;
 pub mod c08;
 pub mod c13;
+pub mod c14;
 pub mod c15;
 pub mod c16;
 
@@ -23,9 +25,11 @@ pub fn lookup(id: &str) -> Option<PropDef> {
     Some(match id {
         "C01" => c01::def(),
         "C02" => c02::def(),
+        "C06" => c06::def(),
         "C07" => c07::def(),
         "C08" => c08::def(),
         "C13" => c13::def(),
+        "C14" => c14::def(),
         "C15" => c15::def(),
         "C16" => c16::def(),
         _ => return None,
